@@ -436,14 +436,22 @@ def evalExpr (b : Binding) : Expr → Option ER
     let x ← (← evalExpr b e).asNumber
     pure (.value (.num x))
   -- `if c.eval(..)?.is_truthy().unwrap_or(false) { t.eval(..) } else { e.eval(..) }`
+  -- (after notes/fixes/C13-if-ebv-error.diff, read by the extractor: `.is_truthy()?`)
   | .ite c t e => do
     let cv ← evalExpr b c
-    if cv.isTruthy.getD false then evalExpr b t else evalExpr b e
+    if Gen.SparqlDispatch.ifEbvStrict then do
+      let v ← cv.isTruthy
+      if v then evalExpr b t else evalExpr b e
+    else if cv.isTruthy.getD false then evalExpr b t else evalExpr b e
   -- `In`: the first element whose comparison is not `Some(false)` decides (an error stops the scan)
+  -- (after notes/fixes/C13-in-first-error.diff, read by the extractor: every element is compared, `true`
+  -- wins over an error, an error over `false`)
   | .inl a e rest => do
     let lhs ← evalExpr b a
     let r := (evalExpr b e).bind (fun o => lhs.sparqlEq o)
-    if r != some false then r.map erBool
+    if Gen.SparqlDispatch.inLenient then
+      (orTable r ((evalExpr b rest).bind ER.isTruthy)).map erBool
+    else if r != some false then r.map erBool
     else evalExpr b rest
   -- `Coalesce`: `find_map`
   | .coalesce a rest => (evalExpr b a).or (evalExpr b rest)
@@ -512,6 +520,10 @@ def select (D : List Quad) : GP → List (Option Term) → Option Binding → Ex
   -- runs `select(pat, graph_matcher, Some(binding))` on a fresh `ExecState` over the same config and
   -- maps `Err(_)` to `false`
   | .filterExists neg pat inner, gm, binding => do
+    -- (after notes/fixes/C13-exists-swallows-refusal.diff, read by the extractor: `check_exists` probes
+    -- the pattern against no graph and returns its refusal)
+    if Gen.SparqlDispatch.existsChecked then
+      let _ ← select D pat [] none
     let r ← select D inner gm binding
     pure { r with rows := r.rows.filter (fun b =>
       let ex := match select D pat gm (some b) with
